@@ -53,6 +53,36 @@ def class_obj(mod, cname, name='cls'):
     return o
 
 
+def re_model():
+    """The pure functions of `re` on strings: a match is an object with groups() / group(i) / start() / end() / span()."""
+    import re as _re
+    mod = Obj('re')
+
+    def wrap(m):
+        if m is None:
+            return None
+        o = Obj('match')
+        o.groups = Native(lambda *a: m.groups(*a))
+        o.group = Native(lambda *a: m.group(*a))
+        o.start = Native(lambda *a: m.start(*a))
+        o.end = Native(lambda *a: m.end(*a))
+        o.span = Native(lambda *a: m.span(*a))
+        o.groupdict = Native(lambda: dict(m.groupdict()))
+        return o
+
+    def strs(*a):
+        if not all(isinstance(x, (str, int)) for x in a):
+            raise NotConst('re on a non-string')
+    for nm_ in ('match', 'search', 'fullmatch'):
+        setattr(mod, nm_, Native(lambda pat, st_, flags=0, _f=getattr(_re, nm_): (strs(pat, st_), wrap(_f(pat, st_, flags)))[1]))
+    mod.sub = Native(lambda pat, rep, st_, count=0: (strs(pat, rep, st_), _re.sub(pat, rep, st_, count))[1])
+    mod.split = Native(lambda pat, st_, maxsplit=0: (strs(pat, st_), _re.split(pat, st_, maxsplit))[1])
+    mod.findall = Native(lambda pat, st_: (strs(pat, st_), _re.findall(pat, st_))[1])
+    mod.escape = Native(lambda st_: _re.escape(st_))
+    mod.I = mod.IGNORECASE = _re.I
+    return mod
+
+
 class Native(object):
     """A checker-side function bound to a name of the analysed code (model of a constructor, isinstance, ...)."""
 
@@ -723,7 +753,13 @@ class Evaluator(object):
                     self.ev(c, loc)
                     return
             raise NotConst('expression statement')
-        elif isinstance(st, (ast.Pass, ast.Import, ast.ImportFrom)):
+        elif isinstance(st, ast.Import):
+            # `import re` inside a function: the pure part of the module (match / search / sub / split on strings) is modelled; other imports bind nothing
+            for al in st.names:
+                if al.name == 're':
+                    scope[al.asname or 're'] = re_model()
+            return
+        elif isinstance(st, (ast.Pass, ast.ImportFrom)):
             return
         elif isinstance(st, ast.FunctionDef):
             # a local helper: callable by name from the enclosing body; when it reads names of the enclosing call it is a closure over that scope
